@@ -236,7 +236,9 @@ pub trait ArrayManipulate<T: ArrayElement> where Array<T>: Sized + Clone {
 impl <T: ArrayElement> ArrayManipulate<T> for Array<T> {
 
     fn insert(&self, indices: &[usize], values: &Self, axis: Option<usize>) -> Result<Self, ArrayError> {
-        if indices.iter().any(|&i| i > self.shape[axis.unwrap_or(0)]) { return Err(ArrayError::OutOfBounds { value: "index" }) }
+        if let Some(axis) = axis { self.axis_in_bounds(axis)?; }
+        let bound = if let Some(axis) = axis { self.shape[axis] } else { self.len()? };
+        if indices.iter().any(|&i| i > bound) { return Err(ArrayError::OutOfBounds { value: "index" }) }
         values.ndim()?.is_dim_supported(&(1 ..= self.ndim()?).collect::<Vec<usize>>())?;
 
         if let Some(axis) = axis {
